@@ -41,36 +41,45 @@ package proto
 //@ spec func isNum(t int) bool = (t == 0 || t == 2 || t == 3)
 
 //@ func (*Message).IsType
+//@ flag nilable_recv
 //@ assigns nothing
-//@ ensures result == (msg.Type == t)
+//@ ensures result == (msg != nil && msg.Type == t)
 
 //@ func (*Message).IsString
+//@ flag nilable_recv
 //@ assigns nothing
-//@ ensures result == (msg.Type == StringMessage)
+//@ ensures result == (msg != nil && msg.Type == StringMessage)
 
 //@ func (*Message).IsError
+//@ flag nilable_recv
 //@ assigns nothing
-//@ ensures result == (msg.Type == ErrorMessage)
+//@ ensures result == (msg != nil && msg.Type == ErrorMessage)
 
 //@ func (*Message).IsInteger
+//@ flag nilable_recv
 //@ assigns nothing
-//@ ensures result == (msg.Type == IntegerMessage)
+//@ ensures result == (msg != nil && msg.Type == IntegerMessage)
 
 //@ func (*Message).IsBulk
+//@ flag nilable_recv
 //@ assigns nothing
-//@ ensures result == (msg.Type == BulkMessage)
+//@ ensures result == (msg != nil && msg.Type == BulkMessage)
 
 //@ func (*Message).IsArray
+//@ flag nilable_recv
 //@ assigns nothing
-//@ ensures result == (msg.Type == ArrayMessage)
+//@ ensures result == (msg != nil && msg.Type == ArrayMessage)
 
 //@ func (*Message).IsNil
+//@ flag nilable_recv
 //@ assigns nothing
-//@ ensures result == (msg.Type == BulkMessage && msg.bytes == nil)
+//@ ensures result == (msg == nil || (msg.Type == BulkMessage && msg.bytes == nil))
 
 //@ func (*Message).Bytes
+//@ flag nilable_recv
 //@ assigns nothing
-//@ ensures result0 == msg.bytes && err == nil
+//@ ensures msg != nil ==> result0 == msg.bytes && err == nil
+//@ ensures msg == nil ==> result0 == nil && err == ErrNil
 
 //@ func (*Message).SetBytes
 //@ assigns msg.bytes
@@ -81,30 +90,103 @@ package proto
 //@ ensures result == msg && msg.array == array
 
 //@ func (*Message).String
+//@ flag nilable_recv
 //@ assigns nothing
-//@ ensures err == nil <==> (isStr(msg.Type) && msg.bytes != nil)
+//@ ensures err == nil <==> (msg != nil && isStr(msg.Type) && msg.bytes != nil)
 //@ ensures err == nil ==> result0 == string(msg.bytes)
 //@ ensures err != nil ==> result0 == ""
-//@ ensures isStr(msg.Type) && msg.bytes == nil ==> err == ErrNil
+//@ ensures msg == nil || (isStr(msg.Type) && msg.bytes == nil) ==> err == ErrNil
 //@ ensures err != nil ==> !errors.Is(err, ErrEOM)
 
 //@ func (*Message).Integer
+//@ flag nilable_recv
 //@ assigns nothing
-//@ ensures err == nil <==> (isNum(msg.Type) && atoiOK(string(msg.bytes)))
+//@ ensures err == nil <==> (msg != nil && isNum(msg.Type) && atoiOK(string(msg.bytes)))
 //@ ensures err == nil ==> result0 == atoi(string(msg.bytes))
 //@ ensures err != nil ==> result0 == 0
 //@ ensures err != nil ==> !errors.Is(err, ErrEOM)
 
 //@ func (*Message).Array
+//@ flag nilable_recv
 //@ assigns nothing
-//@ ensures msg.Type == ArrayMessage ==> result0 == msg.array && err == nil
-//@ ensures msg.Type != ArrayMessage ==> result0 == nil && err != nil
+//@ ensures msg != nil && msg.Type == ArrayMessage ==> result0 == msg.array && err == nil
+//@ ensures msg == nil || msg.Type != ArrayMessage ==> result0 == nil && err != nil
+
+//@ spec func isLine(t int) bool = (t == 0 || t == 1 || t == 2)
+//@ spec func frameHead(p bytes) bool = len(p) >= 3 && isTypeByte(p[0]) && p[len(p)-2] == 13 && p[len(p)-1] == 10
+//@ spec func lineClean(p bytes) bool = (p[0] == 43 || p[0] == 45 || p[0] == 58) ==> (forall i int :: 1 <= i && i < len(p)-2 ==> p[i] != 13 && p[i] != 10)
+//@ spec func clean(c int) int = ((c == 13 || c == 10) ? 32 : c)
+
+//@ func (*Message).RESPBytes
+//@ assigns nothing
+//@ ensures {C04} err == nil ==> frameHead(result0)
+//@ ensures {C04} err == nil ==> lineClean(result0)
+//@ ensures {C04} err != nil ==> result0 == nil
+//@ ensures {C04,C01} err == nil ==> result0[0] == typeByte(msg.Type) && 0 <= msg.Type && msg.Type <= 4
+//@ ensures {C01} err == nil && isLine(msg.Type) ==> len(result0) == len(msg.bytes) + 3
+//@ ensures {C01} err == nil && isLine(msg.Type) ==> forall j int :: 1 <= j && j <= len(msg.bytes) ==> result0[j] == clean(msg.bytes[j-1])
+//@ ensures {C01} isLine(msg.Type) ==> err == nil
+//@ ensures {C01} msg.Type == BulkMessage ==> err == nil
+//@ ensures {C01} msg.Type == BulkMessage && msg.bytes == nil ==> len(result0) == 5 && result0[1] == 45 && result0[2] == 49
+//@ ensures {C01} msg.Type == BulkMessage && msg.bytes != nil ==> len(result0) == 1 + len(itoa(len(msg.bytes))) + 2 + len(msg.bytes) + 2
+//@ ensures {C01} msg.Type == BulkMessage && msg.bytes != nil ==> forall i int :: 0 <= i && i < len(itoa(len(msg.bytes))) ==> result0[1+i] == itoa(len(msg.bytes))[i]
+//@ ensures {C01} msg.Type == BulkMessage && msg.bytes != nil ==> result0[1+len(itoa(len(msg.bytes)))] == 13 && result0[2+len(itoa(len(msg.bytes)))] == 10
+//@ ensures {C01} msg.Type == BulkMessage && msg.bytes != nil ==> forall i int :: 0 <= i && i < len(msg.bytes) ==> result0[3+len(itoa(len(msg.bytes)))+i] == msg.bytes[i]
+//@ loop 0
+//@   invariant buf_len[&respBytes] == 1 + (rangeindex + 1) && -1 <= rangeindex && rangeindex < len(msg.bytes)
+//@   invariant buf_data[&respBytes][0] == typeByte(msg.Type)
+//@   invariant forall j int :: 1 <= j && j <= rangeindex + 1 ==> buf_data[&respBytes][j] == clean(msg.bytes[j-1])
+//@   decreases len(msg.bytes) - rangeindex
+
+//@ func (*Array).RESPBytes
+//@ assigns nothing
+//@ ensures {C04} err == nil ==> frameHead(result0) && result0[0] == 42
+//@ ensures {C01} err == nil ==> forall i int :: 0 <= i && i < len(itoa(len(array.msgs))) ==> result0[1+i] == itoa(len(array.msgs))[i]
+//@ ensures {C01} err == nil ==> result0[1+len(itoa(len(array.msgs)))] == 13 && result0[2+len(itoa(len(array.msgs)))] == 10
+//@ ensures {C07} err == nil ==> forall k int :: 0 <= k && k < len(array.msgs) ==> array.msgs[k] != nil
+//@ loop 0
+//@   invariant 0 <= n && n <= arraySize && arraySize == len(array.msgs)
+//@   invariant buf_len[&respBytes] >= 3 + len(itoa(arraySize))
+//@   invariant buf_data[&respBytes][0] == 42
+//@   invariant forall i int :: 0 <= i && i < len(itoa(arraySize)) ==> buf_data[&respBytes][1+i] == itoa(arraySize)[i]
+//@   invariant buf_data[&respBytes][1+len(itoa(arraySize))] == 13 && buf_data[&respBytes][2+len(itoa(arraySize))] == 10
+//@   invariant buf_data[&respBytes][buf_len[&respBytes]-2] == 13 && buf_data[&respBytes][buf_len[&respBytes]-1] == 10
+//@   invariant forall k int :: 0 <= k && k < n ==> array.msgs[k] != nil
+//@   decreases arraySize - n
 
 // ---------------------------------------------------------------- array.go
 
 //@ func NewArray
 //@ assigns nothing
-//@ ensures result != nil && fresh(result) && result.index == 0 && len(result.msgs) == 0
+//@ ensures result != nil && fresh(result) && result.index == 0 && len(result.msgs) == 0 && fresh(result.msgs)
+
+//@ func (*Array).Append
+//@ assigns array.msgs, elems(array.msgs), alloc
+//@ ensures len(array.msgs) == old(len(array.msgs)) + 1
+//@ ensures array.msgs[len(array.msgs)-1] == msg
+//@ ensures forall j int :: 0 <= j && j < old(len(array.msgs)) ==> array.msgs[j] == old(array.msgs[j])
+//@ ensures array.index == old(array.index)
+
+//@ func (*Message).Append
+//@ requires msg.Type == ArrayMessage ==> msg.array != nil
+//@ ensures msg.Type == ArrayMessage <==> err == nil
+
+//@ func (*Array).ReverseBy
+//@ requires {C07,C12} (step == 1 || step == 2) && len(array.msgs) % step == 0
+//@ assigns nothing
+//@ ensures {C12} result != nil && fresh(result) && result.index == 0 && len(result.msgs) == len(array.msgs)
+//@ loop 0
+//@   invariant 0 <= i && i <= l && i % step == 0 && l == len(array.msgs) && l % step == 0
+//@   invariant ra != nil && fresh(ra) && len(ra.msgs) == i && ra.index == 0 && fresh(ra.msgs)
+//@   decreases l - i
+//@ loop 1
+//@   invariant 0 <= j && j <= step && 0 <= i && i < l && i % step == 0 && l == len(array.msgs) && l % step == 0
+//@   invariant ra != nil && fresh(ra) && len(ra.msgs) == i + j && ra.index == 0 && fresh(ra.msgs)
+//@   decreases step - j
+
+//@ func (*Array).Reverse
+//@ assigns nothing
+//@ ensures {C12} result != nil && fresh(result) && result.index == 0 && len(result.msgs) == len(array.msgs)
 
 //@ func (*Array).Size
 //@ assigns nothing
